@@ -14,6 +14,8 @@ def validate(module_path, trace_path, workers=4, timeout=1500, heap="6g"):
     with open(trace_path) as f:
         for i, line in enumerate(f):
             if '"ev":"reset"' in line:
+                if cur:
+                    execs.append((cur[0], None, cur[1]))     # the process died inside this execution; the next one starts here
                 cur = (i, json.loads(line))
             elif '"ev":"end"' in line and cur:
                 execs.append((cur[0], i, cur[1])); cur = None
@@ -27,6 +29,8 @@ def lines(trace_path, a, b):
     out = []
     with open(trace_path) as f:
         for i, line in enumerate(f):
+            if b is None and i > a and '"ev":"reset"' in line:
+                break
             if i >= a and (b is None or i <= b):
                 out.append(line.rstrip("\n"))
             if b is not None and i > b:
